@@ -477,7 +477,8 @@ func Run(opts *Options) (int, error) {
 						// We want to avoid showing empty list when reload is triggered
 						// and the query string is changed at the same time i.e. command != nil && changed
 						if command == nil || newCount > 0 {
-							if snapshotRevision != inputRevision {
+							// Reloaded (not merely trimmed by --tail)
+							if !snapshotRevision.compatible(inputRevision) {
 								query = []rune{}
 							}
 							snapshot = newSnapshot
